@@ -28,6 +28,8 @@ def catalog(prog, tier):
         'match_states': lambda: [OC.vc_match_states(prog, k, f) for k, f in (('node', 'base'), ('edge', 'base'), ('edge', 'distance'))],
         'start_nodes': lambda: [OC.vc_create_start_nodes(prog, ue, fam, ex) for ue, fam, ex in ((True, 'base', False), (False, 'base', False), (True, 'distance', False), (True, 'base', True))],
         'final_choice': lambda: [OC.vc_build_node_path_choice(prog, le) for le in (False, True)],
+        'path_tail': lambda: [OC.vc_build_node_path_tail(prog, u) for u in (True, False)],
+        'backtrack': lambda: [OC.vc_build_matching_path(prog, d) for d in (False, True)],
         'match': lambda: [MF.vc_match(prog, ex, sp, w) for ex, sp, w in ((False, False, False), (True, False, False), (True, True, False), (False, False, True), (True, False, True))],
         'ne_end': lambda: [OC.vc_ne_end(prog, k, f) for k, f in (('node', 'base'), ('edge', 'base'), ('edge', 'distance'))],
         'ne_inner': lambda: [OC.vc_ne_inner(prog, k, f) for k, f in (('node', 'base'), ('edge', 'base'), ('edge', 'distance'))],
@@ -91,7 +93,13 @@ def run_property(pid, tier, seed, only, spec):
             rets = [(k, pc) for k, pc in rep.path_pcs if k == 'ret']
             if rets:
                 from pyvc.interp import Obligation
-                r = solve.discharge([Obligation(f"{rep.name}::canary-false", rets[0][1], z3.BoolVal(False), 'canary')], timeout_ms=8000)
+                # a deliberately false clause on a returning path must be refuted; a path whose condition is contradictory
+                # (e.g. the continuation after a `break` that the contract shows unreachable) cannot serve as canary: try the next
+                r = None
+                for k_, pc_ in rets[:8]:
+                    r = solve.discharge([Obligation(f"{rep.name}::canary-false", pc_, z3.BoolVal(False), 'canary')], timeout_ms=8000)
+                    if r[0].verdict == 'refuted':
+                        break
                 chk.record(r, 'canary')
     for suite, fn, nq, nt, rule, bounds in spec.get('bounded', []):
         if only and not re.search(only, suite):
